@@ -24,7 +24,7 @@ from ctypes import (POINTER, byref, c_char_p, c_int, c_size_t, c_uint, c_ulong,
                     c_void_p, create_string_buffer)
 
 __all__ = [
-    'LibCryptoError', 'available', 'version', 'ecb', 'make_ecb', 'cipher',
+    'LibCryptoError', 'available', 'legacy_available', 'version', 'ecb', 'make_ecb', 'cipher',
     'aead_encrypt', 'aead_decrypt', 'siv_encrypt', 'siv_decrypt', 'digest', 'mac', 'kdf',
     'decode_key', 'ecdh', 'xdh', 'selftest',
 ]
@@ -799,21 +799,42 @@ def _siv_name(key):
         raise LibCryptoError('SIV key length %d (need 32, 48 or 64)' % len(key))
 
 
+_siv_empty_aad = None
+
+
+def _siv_empty_aad_ok():
+    """Some OpenSSL builds drop zero-length AAD Update calls from S2V; probe once."""
+    global _siv_empty_aad
+    if _siv_empty_aad is None:
+        _siv_empty_aad = True           # let the probe itself through
+        try:
+            key = bytes(range(32))
+            a = siv_encrypt(key, [b'a'], b'x')
+            b = siv_encrypt(key, [b'a', b''], b'x')
+            c = siv_encrypt(key, [b'', b'a'], b'x')
+            _siv_empty_aad = a != b and a != c and b != c
+        except LibCryptoError:          # pragma: no cover
+            _siv_empty_aad = False
+    return _siv_empty_aad
+
+
 def _siv_check(aad_list, data):
-    # OpenSSL's SIV provider silently ignores zero-length Update calls: an empty AAD component
-    # would be dropped from S2V and an empty message never triggers the tag computation.
     aads = [_b(a, 'aad component') for a in aad_list]
-    if any(len(a) == 0 for a in aads):
-        raise LibCryptoError('OpenSSL SIV cannot represent an empty AAD component')
+    if len(aads) > 126:
+        raise LibCryptoError('too many SIV AAD components')
+    if any(len(a) == 0 for a in aads) and not _siv_empty_aad_ok():
+        raise LibCryptoError('this OpenSSL drops empty SIV AAD components')
     if len(data) == 0:
+        # EVP_CipherUpdate(len 0) never runs S2V and EVP_CipherFinal then fails
         raise LibCryptoError('OpenSSL SIV cannot process an empty message')
     return aads
 
 
 def siv_encrypt(key, aad_list, pt):
     """AES-SIV (RFC 5297) -> (ciphertext, 16-byte tag).  Each element of aad_list is one S2V
-    component (by convention the nonce is the last one).  Empty components / empty plaintext
-    raise LibCryptoError (not expressible through OpenSSL's EVP interface)."""
+    component (by convention the nonce is the last one).  An empty plaintext raises
+    LibCryptoError (not expressible through OpenSSL's EVP interface); empty AAD components are
+    accepted only if a run-time probe shows that this OpenSSL does not drop them."""
     key, pt = _b(key, 'key'), _b(pt)
     name = _siv_name(key)
     aads = _siv_check(aad_list, pt)
@@ -869,8 +890,8 @@ _EVP_MD_FLAG_XOF = 0x2
 def digest(name, data, outlen=None):
     """One-shot hash by OpenSSL name ('md4', 'md5', 'sha1', 'sha224', ..., 'sha512-224',
     'sha512-256', 'sha3-256', 'shake128', 'shake256', 'blake2b512', 'blake2s256', 'ripemd160',
-    'sm3', ...).  ``outlen`` is mandatory-or-default for the XOFs (default 16 / 32 bytes) and
-    must equal the digest size (or be None) for everything else."""
+    'sm3', ...).  ``outlen`` selects the output length of the XOFs (default 16 bytes for
+    shake128, 32 for shake256) and must be None or the digest size for everything else."""
     data = _b(data)
     md = _fetch('md', name)
     xof = bool(_EVP_MD_get_flags(md) & _EVP_MD_FLAG_XOF)
@@ -1284,7 +1305,6 @@ def ecdh(group, priv, peer_x, peer_y):
     g = _EC_ALIASES.get(group.lower(), group)
     flen = _EC_FIELD_BYTES.get(g)
     if flen is None:
-        # unknown to the table: ask OpenSSL for the field size via a throw-away decode
         raise LibCryptoError('unsupported EC group %r' % (group,))
     if priv <= 0:
         raise LibCryptoError('private scalar must be positive')
@@ -1340,4 +1360,591 @@ def xdh(alg, priv, peer_pub):
         _ERR_clear_error()
 
 
-# --- END ---
+# --------------------------------------------------------------------------------------
+# self test
+# --------------------------------------------------------------------------------------
+
+def _parse_pkey_text(text):
+    """Parse `openssl pkey -text -noout` output -> {label(lower): int | bytes | str}."""
+    import re
+    fields = {}
+    cur = None
+    for line in text.splitlines():
+        m = re.match(r'^([A-Za-z0-9][A-Za-z0-9 _\-]*):\s*(.*?)\s*$', line)
+        if m:
+            cur = m.group(1).strip().lower()
+            val = m.group(2)
+            m2 = re.match(r'^(\d+) \(0x[0-9a-fA-F]+\)$', val)
+            if m2:
+                fields[cur] = int(m2.group(1))
+                cur = None
+            elif val:
+                fields[cur] = val
+                cur = None
+            else:
+                fields[cur] = b''
+        elif cur is not None and re.match(r'^\s+[0-9a-fA-F:]+\s*$', line):
+            fields[cur] += bytes.fromhex(line.strip().replace(':', ''))
+    return fields
+
+
+def _selftest_cli(check):
+    """decode_key against keys made (and printed) by the openssl command line tool."""
+    import shutil
+    import subprocess
+    import tempfile
+    exe = shutil.which('openssl')
+    if exe is None:
+        return 0
+    tmp = tempfile.mkdtemp(prefix='pcdverif-libcrypto-')
+    n = 0
+
+    def run(*args):
+        r = subprocess.run((exe,) + args, cwd=tmp, stdin=subprocess.DEVNULL,
+                           stdout=subprocess.PIPE, stderr=subprocess.PIPE, timeout=120)
+        if r.returncode != 0:
+            raise AssertionError('openssl %s failed: %s' % (' '.join(args), r.stderr[-300:]))
+        return r.stdout
+
+    def rd(name):
+        with open(os.path.join(tmp, name), 'rb') as f:
+            return f.read()
+
+    def beint(b):
+        return int.from_bytes(b, 'big')
+
+    try:
+        run('genrsa', '-out', 'rsa.pem', '1024')
+        run('ecparam', '-name', 'prime256v1', '-genkey', '-noout', '-out', 'ec256.pem')
+        run('ecparam', '-name', 'secp384r1', '-genkey', '-noout', '-out', 'ec384.pem')
+        run('ecparam', '-name', 'secp521r1', '-genkey', '-noout', '-out', 'ec521.pem')
+        run('genpkey', '-algorithm', 'ed25519', '-out', 'ed25519.pem')
+        run('genpkey', '-algorithm', 'ed448', '-out', 'ed448.pem')
+        run('genpkey', '-algorithm', 'x25519', '-out', 'x25519.pem')
+        run('genpkey', '-algorithm', 'x448', '-out', 'x448.pem')
+        run('dsaparam', '-genkey', '-noout', '-out', 'dsa.pem', '1024')
+        groups = {'ec256': 'prime256v1', 'ec384': 'secp384r1', 'ec521': 'secp521r1'}
+        for base in ('rsa', 'ec256', 'ec384', 'ec521', 'ed25519', 'ed448', 'x25519', 'x448',
+                     'dsa'):
+            src = base + '.pem'
+            txt = _parse_pkey_text(run('pkey', '-in', src, '-text', '-noout').decode())
+            run('pkcs8', '-topk8', '-v2', 'aes-128-cbc', '-passout', 'pass:secret',
+                '-in', src, '-out', base + '.enc.pem')
+            run('pkcs8', '-topk8', '-v2', 'aes-128-cbc', '-passout', 'pass:secret',
+                '-in', src, '-outform', 'DER', '-out', base + '.enc.der')
+            run('pkey', '-in', src, '-outform', 'DER', '-out', base + '.der')
+            run('pkey', '-in', src, '-pubout', '-out', base + '.pub.pem')
+            run('pkey', '-in', src, '-pubout', '-outform', 'DER', '-out', base + '.pub.der')
+            variants = [(src, None), (base + '.der', None), (base + '.enc.pem', b'secret'),
+                        (base + '.enc.der', b'secret')]
+            if base in ('rsa', 'dsa', 'ec256'):
+                run('pkey', '-in', src, '-traditional', '-aes128', '-passout', 'pass:secret',
+                    '-out', base + '.trad.pem')
+                variants.append((base + '.trad.pem', b'secret'))
+            for fname, pw in variants + [(base + '.pub.pem', None), (base + '.pub.der', None)]:
+                k = decode_key(rd(fname), pw)
+                priv = '.pub.' not in fname
+                what = 'decode_key(%s)' % fname
+                check(k['private'] is priv, what + ' private flag')
+                if base == 'rsa':
+                    check(k['type'] == 'RSA', what + ' type')
+                    check(k['n'] == beint(txt['modulus']) and k['e'] == txt['publicexponent'],
+                          what + ' n/e')
+                    if priv:
+                        check(k['d'] == beint(txt['privateexponent'])
+                              and k['p'] == beint(txt['prime1']) and k['q'] == beint(txt['prime2'])
+                              and k['dp'] == beint(txt['exponent1'])
+                              and k['dq'] == beint(txt['exponent2'])
+                              and k['qinv'] == beint(txt['coefficient']), what + ' private part')
+                        check(k['p'] * k['q'] == k['n'], what + ' p*q')
+                    else:
+                        check('d' not in k, what + ' leaks d')
+                elif base == 'dsa':
+                    check(k['type'] == 'DSA', what + ' type')
+                    check(k['p'] == beint(txt['p']) and k['q'] == beint(txt['q'])
+                          and k['g'] == beint(txt['g']) and k['pub'] == beint(txt['pub']),
+                          what + ' p/q/g/y')
+                    if priv:
+                        check(k['priv'] == beint(txt['priv']), what + ' x')
+                        check(pow(k['g'], k['priv'], k['p']) == k['pub'], what + ' g^x')
+                    else:
+                        check('priv' not in k, what + ' leaks x')
+                elif base.startswith('ec'):
+                    check(k['type'] == 'EC' and k['group'] == groups[base] == txt['asn1 oid'],
+                          what + ' group')
+                    check(k['pub'] == txt['pub'], what + ' public point')
+                    flen = (len(txt['pub']) - 1) // 2
+                    check(k['x'] == beint(txt['pub'][1:1 + flen])
+                          and k['y'] == beint(txt['pub'][1 + flen:]), what + ' x/y')
+                    if priv:
+                        check(k['priv'] == beint(txt['priv']), what + ' d')
+                    else:
+                        check('priv' not in k, what + ' leaks d')
+                else:
+                    check(k['type'] == base.upper(), what + ' type')
+                    check(k['pub'] == txt['pub'], what + ' pub')
+                    if priv:
+                        check(k['priv'] == txt['priv'], what + ' priv')
+                    else:
+                        check('priv' not in k, what + ' leaks priv')
+                n += 1
+                if pw is not None:
+                    for bad in (None, b'Secret', b''):
+                        try:
+                            decode_key(rd(fname), bad)
+                        except LibCryptoError:
+                            pass
+                        else:
+                            raise AssertionError('%s decoded with passphrase %r' % (fname, bad))
+                        n += 1
+        # DH between two CLI-made keys: our derive against `openssl pkeyutl -derive`
+        for a, b, fn in (('ec256', 'ec256', 'ecdh'), ('x25519', 'x25519', 'xdh'),
+                         ('x448', 'x448', 'xdh')):
+            other = a + '.peer.pem'
+            if fn == 'ecdh':
+                run('ecparam', '-name', 'prime256v1', '-genkey', '-noout', '-out', other)
+            else:
+                run('genpkey', '-algorithm', a, '-out', other)
+            run('pkey', '-in', other, '-pubout', '-out', a + '.peer.pub.pem')
+            ref = run('pkeyutl', '-derive', '-inkey', a + '.pem', '-peerkey', a + '.peer.pub.pem')
+            mine = decode_key(rd(a + '.pem'))
+            peer = decode_key(rd(a + '.peer.pub.pem'))
+            if fn == 'ecdh':
+                got = ecdh(mine['group'], mine['priv'], peer['x'], peer['y'])
+            else:
+                got = xdh(mine['type'], mine['priv'], peer['pub'])
+            check(got == ref, '%s vs openssl pkeyutl -derive' % fn)
+            n += 1
+    finally:
+        shutil.rmtree(tmp, ignore_errors=True)
+    return n
+
+
+def selftest(cli=True, rounds=40, seed=20260925):
+    """Known answers, cross-checks with hashlib/hmac, round trips, decode_key against the
+    openssl CLI.  Raises AssertionError on mismatch; returns a dict of check counts."""
+    import hashlib
+    import hmac as _hmac
+    import random
+    if not available():
+        raise AssertionError('libcrypto not available: %r' % (_load_error,))
+    counts = {'kat': 0, 'xcheck': 0, 'roundtrip': 0, 'negative': 0, 'cli_keys': 0}
+    rnd = random.Random(seed)
+    H = bytes.fromhex
+
+    def rb(n):
+        return bytes(rnd.getrandbits(8) for _ in range(n))
+
+    def check(cond, msg):
+        if not cond:
+            raise AssertionError('libcrypto selftest: ' + msg)
+
+    def kat(got, want_hex, msg):
+        check(got == H(want_hex), 'KAT %s: got %s' % (msg, got.hex() if got is not None else None))
+        counts['kat'] += 1
+
+    def refuses(f, msg):
+        try:
+            f()
+        except LibCryptoError:
+            counts['negative'] += 1
+        else:
+            raise AssertionError('libcrypto selftest: %s was not refused' % msg)
+
+    seq = bytes(range(256))
+
+    # ---- known answers: block ciphers ------------------------------------------------
+    kat(ecb('AES', seq[:16], H('00112233445566778899aabbccddeeff')),
+        '69c4e0d86a7b0430d8cdb78070b4c55a', 'AES-128 FIPS-197 C.1')
+    kat(ecb('AES', seq[:24], H('00112233445566778899aabbccddeeff')),
+        'dda97ca4864cdfe06eaf70a0ec0d7191', 'AES-192 FIPS-197 C.2')
+    kat(ecb('AES', seq[:32], H('00112233445566778899aabbccddeeff')),
+        '8ea2b7ca516745bfeafc49904b496089', 'AES-256 FIPS-197 C.3')
+    kat(ecb('AES', seq[:16], H('69c4e0d86a7b0430d8cdb78070b4c55a'), encrypt=False),
+        '00112233445566778899aabbccddeeff', 'AES-128 decrypt')
+    kat(ecb('DES', H('0123456789abcdef'), b'Now is t'), '3fa40e8a984d4815', 'DES')
+    kat(ecb('DES3', H('0123456789abcdef') * 3, b'Now is t'), '3fa40e8a984d4815', '3DES k1=k2=k3')
+    kat(ecb('BF', bytes(8), bytes(8)), '4ef997456198dd78', 'Blowfish (Schneier)')
+    kat(ecb('CAST5', H('0123456712345678234567893456789a'), H('0123456789abcdef')),
+        '238b4fe5847e44b2', 'CAST5 RFC 2144 128-bit')
+    kat(ecb('CAST5', H('01234567123456782345'), H('0123456789abcdef')),
+        'eb6a711a2c02271b', 'CAST5 RFC 2144 80-bit')
+    kat(ecb('CAST5', H('0123456712'), H('0123456789abcdef')),
+        '7ac816d16e9b302e', 'CAST5 RFC 2144 40-bit')
+    kat(ecb('RC2', bytes(8), bytes(8), rc2_effective_bits=63), 'ebb773f993278eff', 'RC2 RFC 2268 #1')
+    kat(ecb('RC2', b'\xff' * 8, b'\xff' * 8, rc2_effective_bits=64), '278b27e42e2f0d49',
+        'RC2 RFC 2268 #2')
+    kat(ecb('RC2', H('88'), bytes(8), rc2_effective_bits=64), '61a8a244adacccf0', 'RC2 RFC 2268 #4')
+    kat(ecb('RC2', H('88bca90e90875a7f0f79c384627bafb2'), bytes(8), rc2_effective_bits=128),
+        '2269552ab0f85ca6', 'RC2 RFC 2268 #7')
+    kat(cipher('rc4', b'Key', None, b'Plaintext'), 'bbf316e8d940af0ad3', 'RC4')
+    kat(cipher('id-aes128-wrap', seq[:16], None, H('00112233445566778899aabbccddeeff')),
+        '1fa68b0a8112b447aef34bd8fb5a7b829d3e862371d2cfe5', 'AES-KW RFC 3394 4.1')
+    kwp_kek = H('5840df6e29b02af1ab493b705bf16ea1ae8338f4dcc176a8')
+    kat(cipher('id-aes192-wrap-pad', kwp_kek, None, H('c37b7e6492584340bed12207808941155068f738')),
+        '138bdeaa9b8fa7fc61f97742e72248ee5ae6ae5360d1ae6a5f54f373fa543b6a', 'AES-KWP RFC 5649 #1')
+    kat(cipher('id-aes192-wrap-pad', kwp_kek, None, H('466f7250617369')),
+        'afbeb0f07dfbf5419200f2ccb50bb24f', 'AES-KWP RFC 5649 #2')
+    # SP 800-38A F.2.1 / F.5.1 first blocks
+    k38 = H('2b7e151628aed2a6abf7158809cf4f3c')
+    p38 = H('6bc1bee22e409f96e93d7e117393172a')
+    kat(cipher('aes-128-cbc', k38, seq[:16], p38), '7649abac8119b246cee98e9b12e9197d',
+        'AES-CBC SP 800-38A')
+    kat(cipher('aes-128-ctr', k38, H('f0f1f2f3f4f5f6f7f8f9fafbfcfdfeff'), p38),
+        '874d6191b620e3261bef6864990db6ce', 'AES-CTR SP 800-38A')
+    kat(cipher('aes-128-cfb', k38, seq[:16], p38), '3b3fd92eb72dad20333449f8e83cfb4a',
+        'AES-CFB128 SP 800-38A')
+    kat(cipher('aes-128-ofb', k38, seq[:16], p38), '3b3fd92eb72dad20333449f8e83cfb4a',
+        'AES-OFB SP 800-38A')
+    kat(cipher('aes-128-cfb8', k38, seq[:16], p38[:2]), '3b79', 'AES-CFB8 SP 800-38A')
+
+    # ---- known answers: AEAD -----------------------------------------------------------
+    ct, tag = aead_encrypt('aes-128-gcm', bytes(16), bytes(12), b'', b'', 16)
+    kat(ct + tag, '58e2fccefa7e3061367f1d57a4e7455a', 'GCM test case 1')
+    ct, tag = aead_encrypt('aes-128-gcm', bytes(16), bytes(12), b'', bytes(16), 16)
+    kat(ct + tag, '0388dace60b6a392f328c2b971b2fe78ab6e47d42cec13bdf53a67b21257bddf',
+        'GCM test case 2')
+    ct, tag = aead_encrypt('aes-128-ocb', seq[:16], H('bbaa99887766554433221100'), b'', b'', 16)
+    kat(ct + tag, '785407bfffc8ad9edcc5520ac9111ee6', 'OCB RFC 7253 #1')
+    ct, tag = aead_encrypt('aes-128-ocb', seq[:16], H('bbaa99887766554433221101'),
+                           seq[:8], seq[:8], 16)
+    kat(ct + tag, '6820b3657b6f615a5725bda0d3b4eb3a257c9af1f8f03009', 'OCB RFC 7253 #2')
+    ct, tag = aead_encrypt('aes-128-ccm', H('c0c1c2c3c4c5c6c7c8c9cacbcccdcecf'),
+                           H('00000003020100a0a1a2a3a4a5'), seq[:8], seq[8:31], 8)
+    kat(ct + tag, '588c979a61c663d2f066d0c2c0f989806d5f6b61dac38417e8d12cfdf926e0',
+        'CCM RFC 3610 #1')
+    sun = (b"Ladies and Gentlemen of the class of '99: If I could offer you only one tip for "
+           b"the future, sunscreen would be it.")
+    ct, tag = aead_encrypt('chacha20-poly1305', seq[0x80:0xa0], H('070000004041424344454647'),
+                           H('50515253c0c1c2c3c4c5c6c7'), sun, 16)
+    kat(ct[:16] + tag, 'd31a8d34648e60db7b86afbc53ef7ec21ae10b594f09e26a7e902ecbd0600691',
+        'ChaCha20-Poly1305 RFC 8439 2.8.2')
+    sivkey = H('fffefdfcfbfaf9f8f7f6f5f4f3f2f1f0f0f1f2f3f4f5f6f7f8f9fafbfcfdfeff')
+    ct, tag = siv_encrypt(sivkey, [seq[0x10:0x28]], H('112233445566778899aabbccddee'))
+    kat(tag + ct, '85632d07c6e8f37f950acd320a2ecc9340c02b9690c4dc04daef7f6afe5c',
+        'AES-SIV RFC 5297 A.1')
+    check(siv_decrypt(sivkey, [seq[0x10:0x28]], ct, tag) == H('112233445566778899aabbccddee'),
+          'SIV decrypt')
+    counts['roundtrip'] += 1
+
+    # ---- known answers: hashes, MACs, KDFs -----------------------------------------------
+    kat(digest('sha256', b'abc'),
+        'ba7816bf8f01cfea414140de5dae2223b00361a396177a9cb410ff61f20015ad', 'SHA-256')
+    kat(digest('md4', b'abc'), 'a448017aaf21d8525fc10ae87aa6729d', 'MD4')
+    kat(digest('ripemd160', b'abc'), '8eb208f7e05d987a9b044a8e98c6b087f15a0bfc', 'RIPEMD-160')
+    kat(digest('sha3-256', b''),
+        'a7ffc6f8bf1ed76651c14756a061d662f580ff4de43b49fa82d80a4b80f8434a', 'SHA3-256')
+    kat(digest('shake128', b'', 32),
+        '7f9c2ba4e88f827d616045507605853ed73b8093f6efbc88eb1a6eacfa66ef26', 'SHAKE128')
+    kat(mac('HMAC', b'\x0b' * 20, b'Hi There', digest='sha256'),
+        'b0344c61d8db38535ca8afceaf0bf12b881dc200c9833da726e9376c2e32cff7', 'HMAC RFC 4231 #1')
+    kat(mac('CMAC', k38, b'', cipher='aes-128-cbc'), 'bb1d6929e95937287fa37d129b756746',
+        'CMAC SP 800-38B #1')
+    kat(mac('CMAC', k38, p38, cipher='aes-128-cbc'), '070a16b46b4d4144f79bdd9dd04a287c',
+        'CMAC SP 800-38B #2')
+    kat(mac('POLY1305', H('85d6be7857556d337f4452fe42d506a80103808afb0db2fd4abff6af4149f51b'),
+            b'Cryptographic Forum Research Group'), 'a8061dc1305136c6c22b8baf0c0127a9',
+        'Poly1305 RFC 8439 2.5.2')
+    kat(mac('KMAC128', seq[0x40:0x60], H('00010203'), custom=b'', size=32),
+        'e5780b0d3ea6f7d3a429c5706aa43a00fadbd7d49628839e3187243f456ee14e', 'KMAC128 NIST #1')
+    kat(mac('KMAC128', seq[0x40:0x60], H('00010203'), custom=b'My Tagged Application', size=32),
+        '3b1fba963cd8b0b59e8c1a6d71888b7143651af8ba0a7070c0979e2811324aa5', 'KMAC128 NIST #2')
+    kat(kdf('HKDF', 42, digest='sha256', key=b'\x0b' * 22, salt=seq[:13], info=seq[0xf0:0xfa]),
+        '3cb25f25faacd57a90434f64d0362f2a2d2d0a90cf1a5a4c5db02d56ecc4c5bf34007208d5b887185865',
+        'HKDF RFC 5869 #1')
+    kat(kdf('HKDF', 32, digest='sha256', key=b'\x0b' * 22, salt=seq[:13], mode='EXTRACT_ONLY'),
+        '077709362c2e32df0ddc3f0dc47bba6390b6c73bb50f9c3122ec844ad7c2b3e5', 'HKDF-Extract')
+    kat(kdf('SCRYPT', 64, {'pass': b'', 'salt': b'', 'n': 16, 'r': 1, 'p': 1}),
+        '77d6576238657b203b19ca42c18a0497f16b4844e3074ae8dfdffa3fede21442'
+        'fcd0069ded0948f8326a753a0fc81f17e8d3e0fb2e0d3628cf35e20c38d18906', 'scrypt RFC 7914 #1')
+    kat(kdf('SCRYPT', 64, {'pass': b'password', 'salt': b'NaCl', 'n': 1024, 'r': 8, 'p': 16}),
+        'fdbabe1c9d3472007856e7190d01e9fe7c6ad7cbc8237830e77376634b373162'
+        '2eaf30d92e22a3886ff109279d9830dac727afb94a83ee6d8360cbdfa2cc0640', 'scrypt RFC 7914 #2')
+    kat(kdf('PBKDF2', 20, {'pass': b'password', 'salt': b'salt', 'iter': 1, 'digest': 'sha1'}),
+        '0c60c80f961f0e71f3a9b524af6012062fe037a6', 'PBKDF2 RFC 6070 #1')
+    kat(kdf('PBKDF2', 20, {'pass': b'password', 'salt': b'salt', 'iter': 4096, 'digest': 'sha1'}),
+        '4b007901b765489abead49d926f721d065a429c1', 'PBKDF2 RFC 6070 #3')
+
+    # ---- known answers: key agreement ------------------------------------------------------
+    kat(xdh('X25519', H('77076d0a7318a57d3c16c17251b26645df4c2f87ebc0992ab177fba51db92c2a'),
+            H('de9edb7d7b7dc1b4d35b61c2ece435373f8343c85b78674dadfc7e146f882b4f')),
+        '4a5d9d5ba4ce2de1728e3bf480350f25e07e21c947d19e3376f09b3c1e161742', 'X25519 RFC 7748')
+    kat(xdh('X448', H('9a8f4925d1519f5775cf46b04b5800d4ee9ee8bae8bc5565d498c28dd9c9baf5'
+                      '74a9419744897391006382a6f127ab1d9ac2d8c0a598726b'),
+            H('3eb7a829b0cd20f5bcfc0b599b6feccf6da4627107bdb0d4f345b43027d8b972'
+              'fc3e34fb4232a13ca706dcb57aec3dae07bdc1c67bf33609')),
+        '07fff4181ac6cc95ec1c16a94a0f74d12da232ce40a77552281d282bb60c0b56'
+        'fd2464c335543936521c24403085d59a449a5037514a879d', 'X448 RFC 7748')
+    check(xdh('X25519', rb(32), bytes(32)) is None, 'X25519 low-order point must give None')
+    counts['negative'] += 1
+    kat(ecdh('P-256', int('c88f01f510d9ac3f70a292daa2316de544e9aab8afe84049c62a9c57862d1433', 16),
+             int('d12dfb5289c8d4f81208b70270398c342296970a0bccb74c736fc7554494bf63', 16),
+             int('56fbf3ca366cc23e8157854c13c58d6aac23f046ada30f8353e74f33039872ab', 16)),
+        'd6840f6b42f6edafd13116e0e12565202fef8e9ece7dce03812464d04b9442de', 'ECDH RFC 5903 8.1')
+    # generator * 1 == generator (and an off-curve point is rejected)
+    gx = int('6b17d1f2e12c4247f8bce6e563a440f277037d812deb33a0f4a13945d898c296', 16)
+    gy = int('4fe342e2fe1a7f9b8ee7eb4a7c0f9e162bce33576b315ececbb6406837bf51f5', 16)
+    check(ecdh('prime256v1', 1, gx, gy) == gx.to_bytes(32, 'big'), 'ECDH 1*G')
+    check(ecdh('prime256v1', 1, gx, gy ^ 1) is None, 'ECDH off-curve point must give None')
+    counts['kat'] += 1
+    counts['negative'] += 1
+
+    # ---- cross-checks with hashlib / hmac ------------------------------------------------
+    hl = {'md5': 'md5', 'sha1': 'sha1', 'sha224': 'sha224', 'sha256': 'sha256',
+          'sha384': 'sha384', 'sha512': 'sha512', 'sha512-224': 'sha512_224',
+          'sha512-256': 'sha512_256', 'sha3-224': 'sha3_224', 'sha3-256': 'sha3_256',
+          'sha3-384': 'sha3_384', 'sha3-512': 'sha3_512', 'blake2b512': 'blake2b',
+          'blake2s256': 'blake2s', 'ripemd160': 'ripemd160', 'sm3': 'sm3'}
+    for _ in range(rounds):
+        d = rb(rnd.choice([0, 1, 55, 56, 63, 64, 65, 111, 112, 127, 128, 135, 136, 137, 200, 999]))
+        for ours, theirs in hl.items():
+            try:
+                ref = hashlib.new(theirs, d).digest()
+            except ValueError:
+                continue
+            check(digest(ours, d) == ref, 'digest %s vs hashlib' % ours)
+            counts['xcheck'] += 1
+        n = rnd.randint(0, 300)
+        check(digest('shake128', d, n) == hashlib.shake_128(d).digest(n), 'shake128 vs hashlib')
+        check(digest('shake256', d, n) == hashlib.shake_256(d).digest(n), 'shake256 vs hashlib')
+        k = rb(rnd.choice([0, 1, 20, 64, 65, 128, 129, 200]))
+        for h in ('md5', 'sha1', 'sha256', 'sha384', 'sha512', 'sha3-256'):
+            check(mac('HMAC', k, d, digest=h) == _hmac.new(k, d, hl[h]).digest(),
+                  'HMAC-%s vs hmac' % h)
+            counts['xcheck'] += 1
+        k = rb(rnd.randint(1, 64))
+        sz = rnd.randint(1, 64)
+        check(mac('BLAKE2BMAC', k, d, size=sz) == hashlib.blake2b(d, key=k, digest_size=sz).digest(),
+              'BLAKE2BMAC vs hashlib')
+        k = rb(rnd.randint(1, 32))
+        sz = rnd.randint(1, 32)
+        check(mac('BLAKE2SMAC', k, d, size=sz) == hashlib.blake2s(d, key=k, digest_size=sz).digest(),
+              'BLAKE2SMAC vs hashlib')
+        pw, salt = rb(rnd.randint(0, 40)), rb(rnd.randint(0, 40))
+        it, n = rnd.randint(1, 30), rnd.randint(1, 100)
+        h = rnd.choice(['sha1', 'sha256', 'sha512'])
+        check(kdf('PBKDF2', n, {'pass': pw, 'salt': salt, 'iter': it, 'digest': h})
+              == hashlib.pbkdf2_hmac(h, pw, salt, it, n), 'PBKDF2 vs hashlib')
+        if hasattr(hashlib, 'scrypt'):
+            N, r, p = 2 ** rnd.randint(1, 7), rnd.randint(1, 4), rnd.randint(1, 3)
+            check(kdf('SCRYPT', n, {'pass': pw, 'salt': salt, 'n': N, 'r': r, 'p': p})
+                  == hashlib.scrypt(pw, salt=salt, n=N, r=r, p=p, dklen=n), 'scrypt vs hashlib')
+            counts['xcheck'] += 1
+        # HKDF / KBKDF / PBKDF1 against their definitions computed with hmac/hashlib
+        ikm, info = rb(rnd.randint(1, 60)), rb(rnd.randint(0, 40))
+        prk = _hmac.new(salt or bytes(32), ikm, 'sha256').digest()
+        okm, t, i = b'', b'', 1
+        while len(okm) < n:
+            t = _hmac.new(prk, t + info + bytes([i]), 'sha256').digest()
+            okm += t
+            i += 1
+        check(kdf('HKDF', n, digest='sha256', key=ikm, salt=salt, info=info) == okm[:n],
+              'HKDF vs definition')
+        check(kdf('HKDF', n, digest='sha256', key=prk, info=info, mode='EXPAND_ONLY') == okm[:n],
+              'HKDF expand-only vs definition')
+        label, context = rb(rnd.randint(1, 20)), rb(rnd.randint(1, 20))
+        ki = rb(rnd.randint(1, 80))
+        out, i = b'', 1
+        while len(out) < n:
+            out += _hmac.new(ki, i.to_bytes(4, 'big') + label + b'\0' + context
+                             + (8 * n).to_bytes(4, 'big'), 'sha256').digest()
+            i += 1
+        check(kdf('KBKDF', n, mode='counter', mac='HMAC', digest='sha256', key=ki, salt=label,
+                  info=context) == out[:n], 'KBKDF counter/HMAC vs definition')
+        kc = rb(16)
+        out, i = b'', 1
+        while len(out) < n:
+            out += mac('CMAC', kc, i.to_bytes(4, 'big') + label + context, cipher='aes-128-cbc')
+            i += 1
+        check(kdf('KBKDF', n, mode='counter', mac='CMAC', cipher='aes-128-cbc', key=kc,
+                  salt=label, info=context, use_l=0, use_separator=0) == out[:n],
+              'KBKDF counter/CMAC (no L, no separator) vs definition')
+        if legacy_available():
+            t = pw + salt[:8].ljust(8, b'\1')
+            for _i in range(it):
+                t = hashlib.sha1(t).digest()
+            n1 = rnd.randint(1, 20)
+            check(kdf('PBKDF1', n1, {'pass': pw, 'salt': salt[:8].ljust(8, b'\1'), 'iter': it,
+                                     'digest': 'sha1'}) == t[:n1], 'PBKDF1 vs definition')
+            counts['xcheck'] += 1
+        counts['xcheck'] += 9
+
+    # ---- round trips -----------------------------------------------------------------
+    def rt_ecb(c, key, bits=None):
+        e, d = make_ecb(c, key, bits)
+        bs = e.block_size
+        blk = rb(bs)
+        many = rb(bs * rnd.randint(2, 5))
+        x = e(blk)
+        check(len(x) == bs and d(x) == blk, 'make_ecb %s round trip (key %d bytes)' % (c, len(key)))
+        check(x == ecb(c, key, blk, True, bits), 'make_ecb vs ecb %s' % c)
+        check(ecb(c, key, x, False, bits) == blk, 'ecb %s decrypt' % c)
+        check(e(many) == b''.join(e(many[i:i + bs]) for i in range(0, len(many), bs))
+              and d(e(many)) == many, 'make_ecb %s multi-block' % c)
+        check(e(blk) == x, 'make_ecb %s is stateless' % c)
+        counts['roundtrip'] += 1
+
+    for kl in (16, 24, 32):
+        rt_ecb('AES', rb(kl))
+    rt_ecb('DES', rb(8))
+    rt_ecb('DES3', rb(16))
+    rt_ecb('DES3', rb(24))
+    for kl in range(4, 57):
+        rt_ecb('BF', rb(kl))
+    for kl in range(5, 17):
+        rt_ecb('CAST5', rb(kl))
+    for kl in range(1, 129):
+        rt_ecb('RC2', rb(kl), rnd.randint(40, 1024))
+        rt_ecb('RC2', rb(kl))
+    k = rb(16)
+    check(ecb('RC2', k, bytes(8), rc2_effective_bits=40) != ecb('RC2', k, bytes(8),
+                                                                 rc2_effective_bits=1024)
+          and ecb('RC2', k, bytes(8)) == ecb('RC2', k, bytes(8), rc2_effective_bits=1024),
+          'RC2 effective bits are honoured / default to 1024')
+    check(ecb('BF', k[:8], bytes(8)) != ecb('BF', k[:9], bytes(8)), 'BF key length is honoured')
+    for kl in range(1, 257):
+        key, d = rb(kl), rb(rnd.randint(0, 70))
+        x = cipher('rc4', key, None, d)
+        check(len(x) == len(d) and cipher('rc4', key, None, x, False) == d, 'RC4 round trip')
+        counts['roundtrip'] += 1
+    check(cipher('rc4', k[:5], None, bytes(8)) != cipher('rc4', k[:6], None, bytes(8)),
+          'RC4 key length is honoured')
+
+    modes = [('aes-128-cbc', 16, 16, 16), ('aes-192-cbc', 24, 16, 16), ('aes-256-cbc', 32, 16, 16),
+             ('aes-128-cfb', 16, 16, 1), ('aes-256-cfb8', 32, 16, 1), ('aes-128-ofb', 16, 16, 1),
+             ('aes-128-ctr', 16, 16, 1), ('aes-128-ecb', 16, 0, 16), ('aes-128-xts', 32, 16, -16),
+             ('des-cbc', 8, 8, 8), ('des-cfb', 8, 8, 1), ('des-cfb8', 8, 8, 1), ('des-ofb', 8, 8, 1),
+             ('des-ede3-cbc', 24, 8, 8), ('des-ede3-cfb', 24, 8, 1), ('des-ede3-cfb8', 24, 8, 1),
+             ('des-ede3-ofb', 24, 8, 1), ('des-ede-cbc', 16, 8, 8), ('des-ede-ofb', 16, 8, 1),
+             ('bf-cbc', None, 8, 8), ('bf-cfb', None, 8, 1), ('bf-ofb', None, 8, 1),
+             ('cast5-cbc', None, 8, 8), ('cast5-cfb', None, 8, 1), ('cast5-ofb', None, 8, 1),
+             ('rc2-cbc', None, 8, 8), ('rc2-cfb', None, 8, 1), ('rc2-ofb', None, 8, 1),
+             ('chacha20', 32, 16, 1), ('camellia-128-cbc', 16, 16, 16)]
+    var = {'bf': (4, 56), 'cast5': (5, 16), 'rc2': (1, 128)}
+    for name, kl, ivl, unit in modes:
+        for _ in range(4):
+            fam = name.split('-')[0]
+            key = rb(kl if kl else rnd.randint(*var[fam]))
+            iv = rb(ivl) if ivl else None
+            if unit == -16:
+                d = rb(rnd.randint(16, 80))
+            else:
+                d = rb(unit * rnd.randint(0, 80 // unit))
+            bits = rnd.randint(40, 1024) if fam == 'rc2' else None
+            x = cipher(name, key, iv, d, True, False, bits)
+            check(x is not None and len(x) == len(d), '%s encrypt length' % name)
+            check(cipher(name, key, iv, x, False, False, bits) == d, '%s round trip' % name)
+            if unit > 1:
+                d = rb(rnd.randint(0, 50))
+                x = cipher(name, key, iv, d, True, True, bits)
+                check(len(x) == (len(d) // unit + 1) * unit, '%s padded length' % name)
+                check(cipher(name, key, iv, x, False, True, bits) == d, '%s padded round trip' % name)
+            counts['roundtrip'] += 1
+    # the pure block primitive and the generic interface agree (CBC of one block, zero IV)
+    for c, name, kl in (('AES', 'aes-128-cbc', 16), ('DES3', 'des-ede3-cbc', 24),
+                        ('BF', 'bf-cbc', 11), ('CAST5', 'cast5-cbc', 7), ('RC2', 'rc2-cbc', 13)):
+        key = rb(kl)
+        bs = 16 if c == 'AES' else 8
+        blk = rb(bs)
+        check(cipher(name, key, bytes(bs), blk) == ecb(c, key, blk), '%s: cbc vs ecb' % c)
+        counts['xcheck'] += 1
+
+    for bits in (128, 192, 256):
+        key = rb(bits // 8)
+        for n in (16, 24, 32, 40, 64):
+            d = rb(n)
+            w = cipher('id-aes%d-wrap' % bits, key, None, d)
+            check(len(w) == n + 8 and cipher('id-aes%d-wrap' % bits, key, None, w, False) == d,
+                  'AES-KW round trip')
+            bad = bytes([w[0] ^ 1]) + w[1:]
+            check(cipher('id-aes%d-wrap' % bits, key, None, bad, False) is None,
+                  'AES-KW integrity failure must give None')
+            counts['roundtrip'] += 1
+            counts['negative'] += 1
+        for n in (1, 7, 8, 9, 16, 17, 31, 64):
+            d = rb(n)
+            w = cipher('id-aes%d-wrap-pad' % bits, key, None, d)
+            check(len(w) == (n + 7) // 8 * 8 + 8
+                  and cipher('id-aes%d-wrap-pad' % bits, key, None, w, False) == d,
+                  'AES-KWP round trip')
+            bad = w[:-1] + bytes([w[-1] ^ 1])
+            check(cipher('id-aes%d-wrap-pad' % bits, key, None, bad, False) is None,
+                  'AES-KWP integrity failure must give None')
+            counts['roundtrip'] += 1
+            counts['negative'] += 1
+    x = cipher('aes-128-cbc', k, bytes(16), bytes(16), True, True)      # 16 x 00 + 16 x 10
+    check(cipher('aes-128-cbc', k, bytes(16), x[:-1] + bytes([x[-1] ^ 0xff]), False, True) is None
+          or len(x) != 32, 'bad padding must give None')
+    counts['negative'] += 1
+    check(cipher('aes-128-cbc', k, bytes(16), rb(15), False) is None,
+          'ragged ciphertext must give None')
+    counts['negative'] += 1
+
+    for _ in range(rounds):
+        kl = rnd.choice([16, 24, 32])
+        key, aad, pt = rb(kl), rb(rnd.choice([0, 1, 16, 33])), rb(rnd.choice([0, 1, 15, 16, 17, 70]))
+        cases = [('aes-%d-gcm' % (8 * kl), key, rb(rnd.choice([1, 8, 12, 16, 64])), rnd.randint(4, 16)),
+                 ('aes-%d-ccm' % (8 * kl), key, rb(rnd.randint(7, 13)), rnd.choice([4, 6, 8, 10, 12, 14, 16])),
+                 ('aes-%d-ocb' % (8 * kl), key, rb(rnd.randint(1, 15)), rnd.randint(1, 16)),
+                 ('chacha20-poly1305', rb(32), rb(12), 16)]
+        for name, key_, nonce, tl in cases:
+            ct, tag = aead_encrypt(name, key_, nonce, aad, pt, tl)
+            check(len(ct) == len(pt) and len(tag) == tl, '%s lengths' % name)
+            check(aead_decrypt(name, key_, nonce, aad, ct, tag) == pt, '%s round trip' % name)
+            if tl >= 4:
+                bad = bytes([tag[0] ^ 0x80]) + tag[1:]
+                check(aead_decrypt(name, key_, nonce, aad, ct, bad) is None, '%s bad tag' % name)
+                check(aead_decrypt(name, key_, nonce, aad + b'x', ct, tag) is None, '%s bad AAD' % name)
+                counts['negative'] += 2
+            counts['roundtrip'] += 1
+        key = rb(rnd.choice([32, 48, 64]))
+        aads = [rb(rnd.randint(1, 40)) for _ in range(rnd.randint(0, 4))]
+        pt = rb(rnd.randint(1, 70))
+        ct, tag = siv_encrypt(key, aads, pt)
+        check(siv_decrypt(key, aads, ct, tag) == pt, 'SIV round trip')
+        check(siv_decrypt(key, aads + [b'x'], ct, tag) is None, 'SIV bad AAD')
+        check(siv_decrypt(key, aads, ct, bytes([tag[0] ^ 1]) + tag[1:]) is None, 'SIV bad tag')
+        counts['roundtrip'] += 1
+        counts['negative'] += 2
+
+    # ---- things that must be refused ------------------------------------------------------
+    refuses(lambda: cipher('no-such-cipher', k, None, b''), 'unknown cipher')
+    refuses(lambda: digest('no-such-digest', b''), 'unknown digest')
+    refuses(lambda: mac('NOSUCHMAC', k, b''), 'unknown MAC')
+    refuses(lambda: kdf('NOSUCHKDF', 16), 'unknown KDF')
+    refuses(lambda: cipher('aes-128-cbc', k[:15], bytes(16), b''), 'short AES key')
+    refuses(lambda: cipher('aes-128-cbc', k, bytes(15), b''), 'short IV')
+    refuses(lambda: cipher('aes-128-cbc', k, bytes(16), b'x'), 'ragged plaintext w/o padding')
+    refuses(lambda: ecb('AES', k, b'x' * 15), 'ragged ECB input')
+    refuses(lambda: ecb('DES3', k[:8], bytes(8)), '8-byte 3DES key')
+    refuses(lambda: aead_encrypt('aes-128-ccm', k, bytes(6), b'', b'', 16), 'CCM 6-byte nonce')
+    refuses(lambda: aead_encrypt('aes-128-ccm', k, bytes(12), b'', b'', 5), 'CCM odd tag')
+    refuses(lambda: aead_encrypt('aes-128-ocb', k, bytes(16), b'', b'', 16), 'OCB 16-byte nonce')
+    refuses(lambda: siv_encrypt(k, [], b'x'), 'SIV 16-byte key')
+    refuses(lambda: kdf('KBKDF', 16, mode='counter', mac='HMAC', digest='sha256', key=k, r=8),
+            'KBKDF "r" parameter (not in OpenSSL 3.0)')
+    refuses(lambda: decode_key(b'not a key'), 'garbage key')
+    refuses(lambda: ecdh('no-such-curve', 1, 1, 1), 'unknown EC group')
+
+    if cli:
+        counts['cli_keys'] = _selftest_cli(check)
+    check(_errors() == '', 'OpenSSL error queue not empty at the end')
+    return counts
+
+
+if __name__ == '__main__':      # pragma: no cover
+    import time as _time
+    print(version(), '| legacy provider:', legacy_available())
+    _t0 = _time.perf_counter()
+    _res = selftest()
+    print('selftest ok in %.2f s:' % (_time.perf_counter() - _t0), _res)
+    for _c, _kl in (('AES', 16), ('DES3', 24), ('BF', 16), ('CAST5', 16), ('RC2', 16)):
+        _e, _d = make_ecb(_c, bytes(range(_kl)))
+        _blk = bytes(_e.block_size)
+        _n = 200000
+        _t0 = _time.perf_counter()
+        for _ in range(_n):
+            _e(_blk)
+        _dt = (_time.perf_counter() - _t0) / _n
+        print('make_ecb(%s) closure: %.2f us per %d-byte block call' % (_c, _dt * 1e6, len(_blk)))
+
